@@ -455,3 +455,41 @@ def run(repo: Repo, rep: Report) -> None:  # noqa: F811
                        "the requested pair" if not foreign else
                        "the entry written is assembled from looked-up bindings (%s): with override=False, bind('p', N2) while p -> N1 and q -> N2 exist writes q -> N1 and N1 -> q, leaving p -> N1 and N2 -> q behind: "
                        "two prefixes for N1, and qname(N2 + x) = 'q:x' expands to N1 + x" % ", ".join(foreign), node=st)
+
+
+_run_base2 = run
+
+
+def run(repo: Repo, rep: Report) -> None:  # noqa: F811
+    _run_base2(repo, rep)
+    rep.rule("C17.j-prefix-registered-for-every-non-verb-term",
+             "TurtleSerializer / LongTurtleSerializer.preprocessTriple register the prefix of every term of a triple (self.getQName) except where a `continue` skips it; the skips are "
+             "for PREDICATE-position special cases only (the `a` keyword, a predicate in the base namespace): each `continue` is control-dependent on `i == VERB`. label() writes `a` "
+             "only for a predicate; rdf:type as subject or object is written rdf:type and needs the rdf: prefix declared", floor=4)
+    for modname, cname in (("rdflib.plugins.serializers.turtle", "TurtleSerializer"), ("rdflib.plugins.serializers.longturtle", "LongTurtleSerializer")):
+        mod = repo.mod(modname)
+        f = mod.func(cname + ".preprocessTriple")
+        loops_ = [n for n in own_nodes(f) if isinstance(n, ast.For) and "enumerate" in norm(n.iter)]
+        if not loops_:
+            raise AnalysisError("%s.preprocessTriple: loop over the positions not found" % cname)
+        lp = loops_[0]
+        ivar = norm(lp.target.elts[0]) if isinstance(lp.target, ast.Tuple) else None
+        conts = [n for n in ast.walk(lp) if isinstance(n, ast.Continue)]
+        if not conts:
+            rep.ob("C17.j-prefix-registered-for-every-non-verb-term", mod, cname + ".preprocessTriple", "no position is skipped", True, "", node=lp)
+        for c in conts:
+            guarded = False
+            child = c
+            for p_ in mod.parents(c):
+                if isinstance(p_, ast.If) and any(child is x or any(child is y for y in ast.walk(x)) for x in p_.body):
+                    if any(isinstance(t, ast.Compare) and norm(t.left) == ivar and norm(t.comparators[0]) == "VERB" and isinstance(t.ops[0], ast.Eq) for t in ast.walk(p_.test)):
+                        # the position test must be a conjunct (not an alternative) of the condition
+                        top = p_.test
+                        disj = isinstance(top, ast.BoolOp) and isinstance(top.op, ast.Or)
+                        guarded = guarded or not disj
+                if p_ is lp:
+                    break
+                child = p_
+            rep.ob("C17.j-prefix-registered-for-every-non-verb-term", mod, cname + ".preprocessTriple", "continue @%s" % norm(mod.parent.get(id(c)).test if isinstance(mod.parent.get(id(c)), ast.If) else c)[:60], guarded,
+                   "only in predicate position" if guarded else
+                   "the prefix registration is skipped for subjects and objects too: a graph that uses rdf:type as subject or object (`ex:kind rdfs:subPropertyOf rdf:type`) is written with `rdf:type` but without a PREFIX rdf: line", node=c)
